@@ -364,6 +364,11 @@ func (vc *VC) callMods(fr *Frame, c *ssa.CallCommon, mods map[string]bool, depth
 		for _, m := range ms {
 			mods[m] = true
 		}
+		if len(ms) > 0 && strings.HasPrefix(name, "sync/atomic.") {
+			for n := range vc.casNames {
+				mods[n] = true
+			}
+		}
 		return false
 	}
 	key := vc.eng.funcKey(fn)
@@ -689,6 +694,7 @@ func (vc *VC) nativeModel(fr *Frame, st *State, instr *ssa.Call, c *ssa.CallComm
 		case strings.HasPrefix(op, "Store"):
 			vc.guaranteeObl(fr, st, addr, ty, cur, args[1], True, pos)
 			vc.store(st, addr, ty, args[1])
+			vc.casRecord(st, addr, "", False)
 			vc.setResults(fr, instr, nil)
 		case strings.HasPrefix(op, "Add"):
 			var nv Term
@@ -703,15 +709,18 @@ func (vc *VC) nativeModel(fr *Frame, st *State, instr *ssa.Call, c *ssa.CallComm
 			nv = vc.q.Define(fr.prefix+"$atomnew", nv)
 			vc.guaranteeObl(fr, st, addr, ty, cur, nv, True, pos)
 			vc.store(st, addr, ty, nv)
+			vc.casRecord(st, addr, "", False)
 			vc.setResults(fr, instr, []Term{nv})
 		case strings.HasPrefix(op, "CompareAndSwap"):
 			ok := vc.q.Define(fr.prefix+"$casok", Eq(cur, args[1]))
 			vc.guaranteeObl(fr, st, addr, ty, cur, args[2], ok, pos)
 			vc.store(st, addr, ty, Ite(ok, args[2], cur))
+			vc.casRecord(st, addr, casName(c.Args[1], c.Args[2]), ok)
 			vc.setResults(fr, instr, []Term{ok})
 		case strings.HasPrefix(op, "Swap"):
 			vc.guaranteeObl(fr, st, addr, ty, cur, args[1], True, pos)
 			vc.store(st, addr, ty, args[1])
+			vc.casRecord(st, addr, "", False)
 			vc.setResults(fr, instr, []Term{cur})
 		default:
 			return false
@@ -863,5 +872,51 @@ func (vc *VC) callAsserts(fr *Frame, st *State, c *ssa.CallCommon, args []Term, 
 		g := vc.specBool(env, ca.Clause)
 		vc.addObl(fr, st, "callsite", name+"/"+ca.Clause.Label, g, ca.Clause, pos)
 		vc.callAssertHit[ca] = true
+	}
+}
+
+
+// ---- token ownership: caswon(&x, a, b) ----
+// W_cas_<a>_<b>[addr] holds iff the last atomic write this function performed on addr was a successful
+// CompareAndSwap(addr, a, b). It is a fact about this function's own history (what another goroutine
+// does to the word afterwards does not change it), false at entry.
+
+var casSort = ArraySort(SInt, ArraySort(SPath, SBool))
+
+func casName(oldv, newv ssa.Value) string {
+	a, ok1 := oldv.(*ssa.Const)
+	b, ok2 := newv.(*ssa.Const)
+	if !ok1 || !ok2 || a.Value == nil || b.Value == nil {
+		return ""
+	}
+	return fmt.Sprintf("W_cas_%d_%d", a.Int64(), b.Int64())
+}
+
+// registerCasNames scans a function (and its closures) for CAS operations with constant operands.
+func (vc *VC) registerCasNames(fn *ssa.Function) {
+	for _, b := range fn.Blocks {
+		for _, ins := range b.Instrs {
+			if c, ok := ins.(ssa.CallInstruction); ok {
+				if f := c.Common().StaticCallee(); f != nil && strings.HasPrefix(f.String(), "sync/atomic.CompareAndSwap") && len(c.Common().Args) == 3 {
+					if n := casName(c.Common().Args[1], c.Common().Args[2]); n != "" {
+						vc.casNames[n] = true
+					}
+				}
+			}
+		}
+	}
+}
+
+func (vc *VC) casRecord(st *State, addr Term, name string, ok Term) {
+	if name != "" {
+		vc.casNames[name] = true
+	}
+	for n := range vc.casNames {
+		cur := vc.get(st, n, casSort)
+		v := False
+		if n == name {
+			v = ok
+		}
+		vc.set(st, n, vc.q.Define(n, Store(cur, Root(addr), Store(Select(cur, Root(addr)), PathOf(addr), v))))
 	}
 }
